@@ -332,6 +332,95 @@ pub fn height_case(shape: Shape, s: usize, n: usize, cfg: Config) -> Case {
     Case { desc, verdict }
 }
 
+/// A graph built on a node that was invalidated while it stayed observed: an invalid node has no
+/// inputs any more, so what hangs off it is as tall as its scope allows (the bind's lhs-change node
+/// plus one) plus the nodes stacked on it. `extra` maps are stacked; Ok(true) = judged and held.
+pub fn invalid_base_case(n: usize, over: bool) -> Case {
+    let (h0, _) = measure(Shape::Chain, 0);
+    let desc = format!("graph on an invalidated bind-scope node, limit N={n}, {}", if over { "one level too tall" } else { "exactly N" });
+    let verdict = (|| -> Result<bool, String> {
+        // the node sits above the lhs-change node of its bind: at least h0 + 2
+        let floor = h0 as usize + 2;
+        if n < floor + 1 {
+            return Ok(false);
+        }
+        let extra = n - floor + over as usize;
+        // the bind's own right-hand side: as long as fits under the limit (measured on the engine)
+        let build = |st: &IncrState, k: usize| {
+            let sel = st.var(0i64);
+            let x = st.var(100i64);
+            let holder: Rc<RefCell<Option<Incr<i64>>>> = Rc::new(RefCell::new(None));
+            let (h2, xw) = (holder.clone(), x.watch());
+            let b = sel.bind(move |_| {
+                let t = chain_from(&xw, k);
+                h2.borrow_mut().replace(t.clone());
+                t
+            });
+            (sel, x, holder, b)
+        };
+        let mut k = 1usize;
+        #[cfg(cormacrelf_incremental_rs_verif)]
+        {
+            for cand in 1..=n {
+                let big = IncrState::new_with_height(4096);
+                let (_s, _x, _h, b) = build(&big, cand);
+                let _o = b.observe();
+                big.stabilise();
+                if big.verif_max_height_in_use() as usize <= n {
+                    k = cand;
+                } else {
+                    break;
+                }
+            }
+        }
+        let st = IncrState::new_with_height(n);
+        let (sel, x, holder, b) = build(&st, k);
+        let ob = b.observe();
+        catch_unwind(AssertUnwindSafe(|| st.stabilise())).map_err(|e| format!("first stabilise panicked: {}", crate::panic_message(e)))?;
+        let old_tail = holder.borrow().clone().unwrap();
+        let o_tail = old_tail.observe();
+        catch_unwind(AssertUnwindSafe(|| st.stabilise())).map_err(|e| format!("observing the scope node panicked: {}", crate::panic_message(e)))?;
+        sel.set(1);
+        catch_unwind(AssertUnwindSafe(|| st.stabilise())).map_err(|e| format!("re-running the bind panicked: {}", crate::panic_message(e)))?;
+        if o_tail.try_get_value() != Err(incremental::ObserverError::ObservingInvalid) {
+            return Err(format!("the kept node of the previous run reads {:?}", o_tail.try_get_value()));
+        }
+        let top = chain_from(&old_tail, extra);
+        let o_top = top.observe();
+        let r = catch_unwind(AssertUnwindSafe(|| st.stabilise()));
+        let out = match (r, over) {
+            (Ok(()), false) => {
+                if o_top.try_get_value() == Err(incremental::ObserverError::ObservingInvalid) {
+                    Ok(true)
+                } else {
+                    Err(format!("nodes built on an invalidated node read {:?}", o_top.try_get_value()))
+                }
+            }
+            (Err(e), false) => Err(format!(
+                "{extra} maps on an invalidated bind-scope node (which has no inputs any more and sits right above its bind's lhs-change node, height {}) were rejected under limit {n}: {}",
+                floor,
+                crate::panic_message(e)
+            )),
+            // one level more: whether this is rejected depends on where the engine keeps the
+            // invalidated node, which the property does not say; only a wrong diagnostic is judged
+            (Ok(()), true) => Ok(false),
+            (Err(e), true) => {
+                let m = crate::panic_message(e);
+                if m.to_lowercase().contains("height") { Ok(false) } else { Err(format!("panic does not name the height limit: {m}")) }
+            }
+        };
+        let d = catch_unwind(AssertUnwindSafe(move || {
+            drop((o_top, top, o_tail, old_tail, ob, b, holder, sel, x));
+            drop(st);
+        }));
+        if let Err(e) = d {
+            return Err(format!("dropping the handles afterwards panicked: {}", crate::panic_message(e)));
+        }
+        out
+    })();
+    Case { desc, verdict }
+}
+
 /// sweeps every N in lo..=hi against every shape with sizes around N
 pub fn run_heights(lo: usize, hi: usize) -> J {
     let (h0, _) = measure(Shape::Chain, 0);
@@ -339,6 +428,23 @@ pub fn run_heights(lo: usize, hi: usize) -> J {
     let mut violations = vec![];
     let mut samples = vec![];
     for n in lo..=hi {
+        for over in [false, true] {
+            let c = invalid_base_case(n, over);
+            evals += 1;
+            match c.verdict {
+                Ok(true) => judged_accept += 1,
+                Ok(false) => {}
+                Err(msg) => {
+                    if violations.len() < 10 {
+                        violations.push(J::obj(vec![
+                            ("property", J::s("C19")),
+                            ("message", J::s(format!("{}: {msg}", c.desc))),
+                            ("argv", J::Arr(vec![J::s("limits-heights"), J::s(n.to_string()), J::s(n.to_string())])),
+                        ]));
+                    }
+                }
+            }
+        }
         for shape in SHAPES {
             // sizes that put the needed height at N-1, N, N+1, N+2 (roughly; measured exactly)
             let mut sizes: Vec<usize> = vec![];
@@ -399,7 +505,7 @@ pub fn run_heights(lo: usize, hi: usize) -> J {
 // misuse
 // ------------------------------------------------------------------------------------------
 
-pub const MISUSE: [&str; 12] = [
+pub const MISUSE: [&str; 14] = [
     "cycle_rhs_node_of_dependent_bind",
     "cycle_rhs_node_three_binds",
     "cycle_one_bind",
@@ -407,6 +513,8 @@ pub const MISUSE: [&str; 12] = [
     "cycle_two_binds",
     "cycle_bind_fold",
     "cross_state",
+    "cross_state_dropped",
+    "cross_state_dropped_later",
     "nested_stabilise_map",
     "nested_stabilise_bind",
     "nested_stabilise_handler",
@@ -553,6 +661,34 @@ pub fn misuse_case(name: &str) -> Result<String, String> {
             let o = b.observe();
             result = catch_unwind(AssertUnwindSafe(|| st.stabilise())).map_err(crate::panic_message);
             keep.push(Box::new((o, b, v, foreign, other)));
+        }
+        "cross_state_dropped" | "cross_state_dropped_later" => {
+            // the other state is gone by the time the bind hands out one of its nodes (at once, or
+            // after a history of local results): still a node of another state
+            needle = None;
+            let other = IncrState::new();
+            let foreign = other.var(7i64).watch().map(|x| x + 1);
+            let fo = foreign.observe();
+            other.stabilise();
+            drop(fo);
+            let v = st.var(0i64);
+            let local = st.constant(1i64);
+            let later = name == "cross_state_dropped_later";
+            let b = v.bind(move |x| if later && *x == 0 { local.clone() } else { foreign.clone() });
+            let o = b.observe();
+            drop(other);
+            if later {
+                st.stabilise();
+                if o.try_get_value() != Ok(1) {
+                    return Err(format!("local result reads {:?}", o.try_get_value()));
+                }
+                v.set(1);
+            }
+            result = catch_unwind(AssertUnwindSafe(|| st.stabilise())).map_err(crate::panic_message);
+            if result.is_ok() {
+                return Err(format!("a node of another (already dropped) state was accepted as a bind result; the observer reads {:?}", o.try_get_value()));
+            }
+            keep.push(Box::new((o, b, v)));
         }
         "nested_stabilise_handler_pending_write" => {
             // the handler first writes a variable (so there is work to do), then calls stabilise:
